@@ -237,6 +237,9 @@ def _scen(case, cov, viol):
     two = o["b_dem"] + o["b_gop"]
     o.update(cls="s", r_dem=int(two * 1.5), r_gop=int(two * 0.1), r_turnout=int(two * 1.6) + 5)
     units.append(o)
+    # classification names that contain the character used to join group keys, next to one that continues the same word
+    for u in units:
+        u["cls"] = {"r": "no_va", "u": "no-valley"}.get(u["cls"], u["cls"])
     mp = {"B": case["B"]}
     if case["lambda"] is not None:
         mp["lambda_"] = case["lambda"]
